@@ -161,6 +161,10 @@ class Node:
         return "#%d%s" % (self.nid, self.cls)
 
 
+def _hexdist(i, j):
+    return max(abs(i), abs(j), abs(i + j))
+
+
 class Stop(Exception):
     """Raised after a violation that makes the model unable to follow armi any further."""
 
@@ -1026,7 +1030,7 @@ class Interp:
         elif got is not (items[0].obj if items else None):
             self.fail(sig, "%s gives %r, naive walk gives %r" % (what, got, [x.obj for x in items]))
 
-    def class_queries(self, n, mspec, aspec, exact, stext, tname, wantc):
+    def class_queries(self, n, mspec, aspec, exact, stext, tname, wantc, sw, keep, pred, pname):
         """The flag/type filtering wrappers of Composite, Assembly and Core, against the same naive walk."""
         A = self.A
         o = n.obj
@@ -1035,7 +1039,7 @@ class Interp:
         wrap = lambda x: True if mspec is None else ref_has_flags(flags(x), mspec, exact)  # noqa: E731  (None = no filter)
         loose = lambda x: ref_has_flags(flags(x), mspec, False)  # noqa: E731
         # -- any composite: component wrappers
-        self.expect_one(lambda: o.getComponent(aspec, exact=exact, quiet=True), wantc, "query/getComponent", "getComponent(%s) of %r" % (stext, o))
+        self.expect_one(lambda: o.getComponent(aspec, exact=exact, quiet=bool(sw & 32)), wantc, "query/getComponent", "getComponent(%s) of %r" % (stext, o))
         got = o.getNumComponents(aspec, exact)
         want = sum(int(c.obj.getDimension("mult")) for c in wantc)
         if got != want:
@@ -1057,6 +1061,13 @@ class Interp:
                 or bool(o.containsOnlyChildrenWithFlags(aspec)) != all(bools):
             self.fail("query/childrenHaveFlags", "doChildrenHaveFlags/containsAtLeastOne/containsOnly(%s) of %r disagree with the children's flags %r"
                       % (stext, o, [sorted(flags(c)) for c in kids]))
+        got = list(o.doChildrenHaveFlags(aspec, deep=True))  # order of a deep walk is not promised: one entry per descendant
+        want = [loose(x) for x in self.subtree(n)[1:]]
+        if sorted(got) != sorted(want):
+            self.fail("query/childrenHaveFlags-deep", "doChildrenHaveFlags(%s, deep=True) of %r gives %d entries (%d True), the %d descendants have %d matches"
+                      % (stext, o, len(got), sum(got), len(want), sum(want)))
+        if n.cls != "R":
+            self.check_exact(list(o.iterChildrenOfType(tname)), [c for c in kids if c.obj.p.type == tname], "query/getChildrenOfType", "iterChildrenOfType(%r) of %r" % (tname, o))
         self.gate()
         if n.cls == "A":
             want = [c for c in kids if wrap(c)]
@@ -1065,7 +1076,23 @@ class Interp:
             got = o.getFirstBlock(aspec, exact)
             if got is not (want[0].obj if want else None):
                 self.fail("query/assembly-getFirstBlock", "Assembly.getFirstBlock(%s) of %r gives %r, naive walk %r" % (stext, o, got, [c.obj for c in want]))
-            self.check_exact([b for b, _z in o.getBlocksAndZ(aspec)], [c for c in kids if loose(c)], "query/assembly-getBlocksAndZ", "Assembly.getBlocksAndZ(%s) of %r" % (stext, o))
+            bot, top = bool(sw & 64), bool(sw & 128) and not (sw & 64)
+            pairs = list(o.getBlocksAndZ(aspec, returnBottomZ=bot, returnTopZ=top))
+            zs, z0 = [], 0.0
+            for c in kids:
+                z1 = z0 + c.obj.getHeight()
+                if loose(c):
+                    zs.append(z0 if bot else z1 if top else (z0 + z1) / 2.0)
+                z0 = z1
+            if self.check_exact([b for b, _z in pairs], [c for c in kids if loose(c)], "query/assembly-getBlocksAndZ", "Assembly.getBlocksAndZ(%s) of %r" % (stext, o)):
+                if [z for _b, z in pairs] != zs:
+                    self.fail("query/assembly-getBlocksAndZ", "Assembly.getBlocksAndZ(%s, bottom=%s, top=%s) of %r: z %r, stacked heights give %r" % (stext, bot, top, o, [z for _b, z in pairs], zs))
+            want = 0.0
+            for c in kids:
+                if loose(c):
+                    want += c.obj.getHeight()
+            if o.getTotalHeight(aspec) != want or o.getHeight(aspec) != want:
+                self.fail("query/assembly-getTotalHeight", "getTotalHeight(%s) of %r is %r, matching blocks add up to %r" % (stext, o, o.getTotalHeight(aspec), want))
             if o.countBlocksWithFlags(aspec) != sum(1 for c in kids if loose(c)):
                 self.fail("query/assembly-countBlocksWithFlags", "Assembly.countBlocksWithFlags(%s) of %r is %r" % (stext, o, o.countBlocksWithFlags(aspec)))
             typed = [c for c in kids if c.obj.p.type == tname]
@@ -1080,14 +1107,46 @@ class Interp:
             if got is not (hit[0].obj if hit else None):
                 self.fail("query/core-getFirstBlock", "Core.getFirstBlock(%s) of %r gives %r, naive walk %r" % (stext, o, got, [b.obj for b in hit[:3]]))
             # getAssemblies/getBlocks return the assemblies in location order: compared as sets, each once
-            got = o.getAssemblies(typeSpec=aspec, exact=exact)
-            want = [a for a in kids if wrap(a)]
+            inc_sfp, inc_all, inc_bol = bool(sw & 2), bool(sw & 4), bool(sw & 8)
+            kw = {"includeSFP": inc_sfp, "includeAll": inc_all, "includeBolAssems": inc_bol}  # (the blueprints hold no assemblies)
+            if sw & 16:
+                kw["sortKey"] = lambda a: a.getName()
+            pool = []
+            if (inc_sfp or inc_all) and self.in_reactor(n):
+                pool = [a for sfp in self.kids(self.par(n)) if sfp.cls == "S" for a in self.kids(sfp)]
+                if pool:
+                    self.out.label("query:core+pool")
+            ktext = "includeSFP=%s, includeAll=%s, includeBolAssems=%s, sortKey=%s" % (inc_sfp, inc_all, inc_bol, bool(sw & 16))
+            got = o.getAssemblies(typeSpec=aspec, exact=exact, **kw)
+            want = [a for a in kids + pool if wrap(a)]
             if sorted(id(x) for x in got) != sorted(id(a.obj) for a in want):
-                self.fail("query/core-getAssemblies", "Core.getAssemblies(%s) of %r returned %r, children matching are %r" % (stext, o, got, [a.obj for a in want]))
-            got = o.getBlocks(aspec)
-            want = [b for b in blocks if loose(b)]
+                self.fail("query/core-getAssemblies", "Core.getAssemblies(%s, %s) of %r returned %r, core%s children matching are %r"
+                          % (stext, ktext, o, got, " and pool" if pool else "", [a.obj for a in want]))
+            got = o.getBlocks(aspec, **kw)
+            want = [b for a in kids + pool for b in self.kids(a) if loose(b)]
             if sorted(id(x) for x in got) != sorted(id(b.obj) for b in want):
-                self.fail("query/core-getBlocks", "Core.getBlocks(%s) of %r returned %r, naive walk %r" % (stext, o, got, [b.obj for b in want]))
+                self.fail("query/core-getBlocks", "Core.getBlocks(%s, %s) of %r returned %r, naive walk %r" % (stext, ktext, o, got, [b.obj for b in want]))
+            # block type and assembly type filters together (the assembly filter goes through getAssemblies)
+            got = o.getBlocks(None, typeSpec=aspec, exact=exact, **kw)
+            want = [b for a in kids + pool if wrap(a) for b in self.kids(a)]
+            if sorted(id(x) for x in got) != sorted(id(b.obj) for b in want):
+                self.fail("query/core-getBlocks", "Core.getBlocks(None, typeSpec=%s, %s) of %r returned %r, naive walk %r" % (stext, ktext, o, got, [b.obj for b in want]))
+            self.check_exact(o.getAssembliesOfType(aspec, exactMatch=exact), [a for a in kids if ref_has_flags(flags(a), mspec, exact)],
+                             "query/core-getAssembliesOfType", "Core.getAssembliesOfType(%s) of %r" % (stext, o))
+            self.check_exact(list(o.iterBlocks(aspec, exact, predicate=pred)), [b for b in blocks if wrap(b) and keep(b.obj)], "query/core-iterBlocks",
+                             "Core.iterBlocks(%s, predicate=%s) of %r" % (stext, pname, o))
+            if self.in_reactor(n):  # ring queries need the assemblies' place in the core grid
+                ring = 1 + (sw >> 10) % 3
+                excl = [a for idx, a in enumerate(kids) if (sw >> 9) & 1 and idx % 2 == 0]
+                cell = {nid: c for c, nid in n.locs.items()}
+                want = [a for a in kids if a not in excl and 1 + _hexdist(*cell[a.nid]) == ring and wrap(a)]
+                got = o.getAssembliesInRing(ring, typeSpec=aspec, exactType=exact, exclusions=[a.obj for a in excl] or None)
+                self.check_exact(got, want, "query/core-getAssembliesInRing", "Core.getAssembliesInRing(%d, %s, %d exclusions) of %r" % (ring, stext, len(excl), o))
+            sel = [a for a in kids if mspec is None or loose(a)]  # assemTypeSpec goes through getAssemblies(typeSpec), inexact
+            want = max([len(a.children) for a in sel] or [0])
+            if o.countBlocksWithFlags(None, assemTypeSpec=aspec) != want:
+                self.fail("query/core-countBlocksWithFlags", "Core.countBlocksWithFlags(None, assemTypeSpec=%s) of %r is %r, expected %r"
+                          % (stext, o, o.countBlocksWithFlags(None, assemTypeSpec=aspec), want))
             if mspec is not None:
                 hit = [a for a in kids if ref_has_flags(flags(a), mspec, exact)]
                 got = o.getFirstAssembly(aspec, exact)
@@ -1175,7 +1234,10 @@ class Interp:
         self.check_exact(o.getComponents(aspec, exact), wantc, "query/getComponents", "getComponents(%s) of %r" % (stext, o))
         self.check_exact(list(o.iterComponents(aspec, exact)), wantc, "query/getComponents", "iterComponents(%s) of %r" % (stext, o))
         self.gate()
-        self.class_queries(n, mspec, aspec, exact, stext, tname, wantc)
+        self.class_queries(n, mspec, aspec, exact, stext, tname, wantc, q[4] // 16, keep, pred, pname)
+        for k in self.nodes:  # the Core-level wrappers (include* switches, pool) on every core, every step
+            if k.cls == "K" and k is not n:
+                self.class_queries(k, mspec, aspec, exact, stext, tname, self.naive_components(k, mspec, exact), q[4] // 16, keep, pred, pname)
         self.gate()
         # -- ancestors
         chain = self.chain(n)
